@@ -54,6 +54,10 @@ def d1(cx: Cx, ob: Ob) -> None:
                     witness="records GO -> {http://.../GO_, synonym 'GO:'}: expand('GO:0032571') is not None but is_curie('GO:0032571') is False",
                     detail="uri-exclusion",
                 )
+            elif is_const(t, False) and any(g.kind == "guard" and g.b is False and g.a == ("cmp", "in", ("attr", me, "delimiter"), arg) for g in ctx.guards):
+                # a string without the delimiter cannot be split (C02-D1: _split raises exactly then; C02-D2: parse_curie
+                # splits at self.delimiter), so expand would raise the ValueError that is_curie answers with False
+                ob.site(f"{where(fn, line)} {fn.qualname}", "shortcut: no delimiter in the string -> False")
             else:
                 ob.undecide(f"is_curie returns `{show(t)[:60]}`, not a None-test")
             continue
